@@ -89,6 +89,7 @@ type nativeCase struct {
 	Harness string      `json:"harness"`
 	Idx     int         `json:"idx"`
 	Tier    int         `json:"tier"`
+	Prop    string      `json:"prop"`
 	Nondet  []nondetVal `json:"nondet"`
 }
 
@@ -255,6 +256,7 @@ func cmdCheck(args []string) int {
 		for _, pass := range passes {
 			cfg := defaultCfg(*tier)
 			cfg.tierN = tierN
+			cfg.property = id
 			cfg.kfOpen = open
 			cfg.kfConfirm = pass
 			if hs.MaxPaths > 0 {
@@ -323,7 +325,7 @@ func cmdCheck(args []string) int {
 					key := fmt.Sprintf("%s#%d", hs.Name, len(allWitness))
 					_ = i
 					witnessOf[key] = w
-					allWitness = append(allWitness, nativeCase{Harness: hs.Name, Idx: len(allWitness), Tier: tierN, Nondet: w.Nondet})
+					allWitness = append(allWitness, nativeCase{Harness: hs.Name, Idx: len(allWitness), Tier: tierN, Prop: id, Nondet: w.Nondet})
 					if len(samples) < 6 {
 						samples = append(samples, map[string]interface{}{"harness": hs.Name, "path_decisions": w.Decisions, "model": w.Nondet, "observed": w.Observed})
 					}
@@ -368,7 +370,7 @@ func cmdCheck(args []string) int {
 		base := len(cases)
 		for i, v := range viols {
 			if v.Event.Witness != nil {
-				cases = append(cases, nativeCase{Harness: v.Harness, Idx: base + i, Tier: tierN, Nondet: v.Event.Witness.Nondet})
+				cases = append(cases, nativeCase{Harness: v.Harness, Idx: base + i, Tier: tierN, Prop: id, Nondet: v.Event.Witness.Nondet})
 			}
 		}
 		byPkg := map[string][]nativeCase{}
@@ -580,7 +582,7 @@ func cmdReplay(args []string) int {
 	}
 	scratch, _ := os.MkdirTemp("", "gosx-replay-")
 	defer os.RemoveAll(scratch)
-	res, out, err := runNative(l, d, []nativeCase{{Harness: rec.Harness, Idx: 0, Tier: rec.Tier, Nondet: rec.Witness.Nondet}}, scratch)
+	res, out, err := runNative(l, d, []nativeCase{{Harness: rec.Harness, Idx: 0, Tier: rec.Tier, Prop: rec.Property, Nondet: rec.Witness.Nondet}}, scratch)
 	if err != nil {
 		fmt.Println("native run failed:", err)
 		fmt.Println(out)
